@@ -189,7 +189,7 @@ def _run_lines(job, ctx, prog, steps, idx, tstep):
             if again.get("op") == "call":
                 again["repeat_of"] = tstep["id"]
                 again.pop("out", None)
-            has_rep = any(st.get("repeat_of") == tstep["id"] for st in steps[idx + 1:])
+            has_rep = "repeat_of" in tstep or any(st.get("repeat_of") == tstep["id"] for st in steps[idx + 1:])
             tail = ([again] if again.get("op") == "call" and not has_rep else []) + steps[idx + 1:]
             try:
                 ctx.exec_step(c)
